@@ -21,6 +21,7 @@ Ener == Pick({<<1, 10>>, <<1, 2>>, <<4, 1>>}, {<<1, 100>>})
 (* the excluded-volume gases need b rho < 1 *)
 InDomain(eos, rho) == IF eos.cls \in {"noble_abel_eos", "carnahan_starling_eos"} THEN QLt(QMul(eos.k.b, rho), <<9, 10>>) ELSE TRUE
 
+Retunable == {"stiffened_gas_eos", "noble_abel_eos", "carnahan_starling_eos"}
 Residuals == {"energy_noh_residual", "simplified_energy_noh_residual", "pressure_noh_residual", "simplified_pressure_noh_residual"}
 Symmetry  == {0, 1, 2}
 InitRho   == Pick({<<1, 1>>, <<2, 1>>}, {})
@@ -41,7 +42,11 @@ Init == \/ \E eos \in EosSet, r \in Dens, e \in Ener :
               \* with a non-ideal EOS the cold converging inflow is not pressure-free (e(rho, 0) depends on rho): the jump
               \* conditions are an unambiguous statement in planar symmetry only
               /\ (eos.cls # "ideal_gas_eos" => s = 0)
-              /\ pb = [kind |-> "newton", eos |-> eos, symmetry |-> s, rho0 |-> r0, u0 |-> u0]
+              \* via: the EOS reaches its constants at construction ("fresh") or through its public setters after the solver
+              \* has already been used once with other constants ("retuned"; classes that publish setters)
+              /\ \E via \in {"fresh", "retuned"} :
+                   /\ (via = "retuned" => eos.cls \in Retunable)
+                   /\ pb = [kind |-> "newton", eos |-> eos, symmetry |-> s, rho0 |-> r0, u0 |-> u0, via |-> via]
 Next == UNCHANGED pb
 Spec == Init /\ [][Next]_pb
 Emit == PrintT(ToJson(pb))
